@@ -485,8 +485,10 @@ pub fn held(s: impl Strategy<Value = NetCase>) -> impl Strategy<Value = NetCase>
 /// a TLS configuration, `https://` origins. (Debugging aid: VERIF_NET_TLS=1 / 0 forces it on / off.)
 pub fn secured(s: impl Strategy<Value = NetCase>) -> impl Strategy<Value = NetCase> {
     let forced = std::env::var("VERIF_NET_TLS").ok().map(|v| v == "1");
-    (s, prop_oneof![2 => Just(false), 1 => Just(true)]).prop_map(move |(mut c, tls)| {
+    (s, prop_oneof![2 => Just(false), 1 => Just(true)], prop_oneof![3 => Just(0u8), 1 => Just(1u8), 1 => Just(2u8)]).prop_map(move |(mut c, tls, not_ready)| {
         c.tls = forced.unwrap_or(tls);
+        // (a transport that is not ready at once, as `tower::Service` allows)
+        c.transport_not_ready = not_ready;
         c
     })
 }
@@ -540,6 +542,7 @@ pub fn c01_strategy_up(max_reqs: usize, up_weight: u32) -> impl Strategy<Value =
             same_host: false,
             tls: false,
             graceful_never: false,
+            transport_not_ready: 0,
         })
     })
 }
@@ -592,6 +595,7 @@ pub fn c07_strategy(max_reqs: usize) -> impl Strategy<Value = NetCase> {
             same_host: false,
             tls: false,
             graceful_never: false,
+            transport_not_ready: 0,
         }})
     })
 }
@@ -624,6 +628,7 @@ pub fn c07_burst_strategy(max_reqs: usize) -> impl Strategy<Value = NetCase> {
             same_host: false,
             tls: false,
             graceful_never: false,
+            transport_not_ready: 0,
         })
     })
 }
@@ -652,6 +657,7 @@ pub fn c13_e2e_strategy(max_reqs: usize) -> impl Strategy<Value = NetCase> {
             same_host: false,
             tls: false,
             graceful_never: false,
+            transport_not_ready: 0,
         })
     })
 }
@@ -681,6 +687,7 @@ pub fn c04_e2e_strategy(max_reqs: usize) -> impl Strategy<Value = NetCase> {
             same_host: false,
             tls: false,
             graceful_never: false,
+            transport_not_ready: 0,
         })
     })
 }
@@ -710,6 +717,7 @@ pub fn c15_e2e_strategy(max_reqs: usize) -> impl Strategy<Value = NetCase> {
             same_host: false,
             tls: false,
             graceful_never: false,
+            transport_not_ready: 0,
         })
     })
 }
@@ -738,6 +746,7 @@ pub fn c19_strategy(max_reqs: usize) -> impl Strategy<Value = NetCase> {
             same_host: false,
             tls: false,
             graceful_never: false,
+            transport_not_ready: 0,
         })
     })
 }
@@ -765,6 +774,7 @@ pub fn c09_strategy(max_reqs: usize) -> impl Strategy<Value = NetCase> {
             same_host: false,
             tls: false,
             graceful_never: false,
+            transport_not_ready: 0,
             })
     })
 }
